@@ -140,6 +140,31 @@ func (in *Interp) runControlled(budget int, fs []Value) {
 	}
 }
 
+// schedPoint parks a scheduled thread at a named point and hands control to the schedule controller.
+func (in *Interp) schedPoint(name string) {
+	self := in.cur
+	if self == nil || !self.ctl || in.controller == nil {
+		return
+	}
+	if !in.concretizeGuard() {
+		return
+	}
+	self.atPoint = name
+	self.blocked = true
+	self.cond = nil
+	in.switchTo(self, in.controller)
+	self.blocked = false
+}
+
+// implicitPoint: with vt.ImplicitPoints(true) every atomic / mutex / channel operation of a scheduled
+// thread is a scheduling point too (names start with '~'; such schedules cannot be forced natively and
+// are replayed by stress).
+func (in *Interp) implicitPoint(name string) {
+	if in.implicitPts {
+		in.schedPoint("~" + name)
+	}
+}
+
 // ctlBase: id of the first controlled thread (thread indices in events are relative to it).
 func ctlBase(in *Interp) int {
 	for _, t := range in.threads {
@@ -166,18 +191,13 @@ func init() {
 		return nil
 	})
 	reg("github.com/openfga/openfga/internal/verifhook.Point", func(in *Interp, fn *ssa.Function, a []Value, g *Term) Value {
-		self := in.cur
-		if !self.ctl || in.controller == nil {
-			return nil
-		}
-		if !in.concretizeGuard() {
-			return nil
-		}
-		self.atPoint = in.needConc(a[0], "verifhook.Point name")
-		self.blocked = true
-		self.cond = nil
-		in.switchTo(self, in.controller)
-		self.blocked = false
+		in.schedPoint(in.needConc(a[0], "verifhook.Point name"))
+		return nil
+	})
+	reg(vt+"ImplicitPoints", func(in *Interp, fn *ssa.Function, a []Value, g *Term) Value {
+		old := in.implicitPts
+		in.implicitPts = a[0].(*Term).IsTrue()
+		in.onUndo(func() { in.implicitPts = old })
 		return nil
 	})
 	reg("github.com/openfga/openfga/internal/verifhook.Set", noop0)
